@@ -389,7 +389,7 @@ static void run_file(const Prepared& P, const std::string& kase) {
 				if (pos != (long)P.exp.size() || k != 0 || !f.end()) report_rest("file", "File", (long)P.exp.size() - pos, kase);
 			}
 		}
-		if (!vf::opt.thorough() && !vf::opt.replay && q.size() > 2) break; // the read<T>() spelling is the same template; long sequences use it in the thorough tier only
+		if (!vf::opt.replay && q.size() > 2) break; // read<T>() is a one-line wrapper of >>: it is exercised on every sequence of length <= 2 (and on a replay)
 	}
 	asan_check("file", "reading", kase);
 }
